@@ -124,7 +124,25 @@ type calendar struct {
 func drawCalendar(c Chooser, T int, yearLo, yearHi int) *calendar {
 	y := intIn(c, yearLo, yearHi)
 	m := intIn(c, 1, 12)
+	// calendar code goes wrong at the ends of years and around 29 February: a third of the calendars
+	// start in a leap year, a quarter in December (so that short series cross into the next year), one
+	// in eight in the second half of February
+	if c.Choose(3) == 2 {
+		y -= y % 4
+		if y%100 == 0 && y%400 != 0 {
+			y += 4
+		}
+	}
+	switch c.Choose(8) {
+	case 5, 6:
+		m = 12
+	case 7:
+		m = 2
+	}
 	d := intIn(c, 1, daysInMonth(m, y))
+	if m == 2 && d < 15 {
+		d += 14
+	}
 	cal := &calendar{year: make([]float64, T), doy: make([]float64, T)}
 	for t := 0; t < T; t++ {
 		cal.year[t] = float64(y)
@@ -768,6 +786,11 @@ func genStorageTable(c Chooser, maxDim, n int) []float64 {
 
 	level := Float(c, 0, 100)
 	vol := 0.0
+	// one table in four starts above an empty reservoir: the first row is a dead storage (a positive
+	// volume at which nothing is released and the surface area is still zero)
+	if c.Choose(4) == 3 {
+		vol = logFloat(c, 1e2, 1e5)
+	}
 	// one storage in eight is "unconfigured": a table without any volume, which the kernel rejects
 	// (message, zero outputs, states untouched) - a defined behaviour that large networks rely on
 	unconfigured := c.Choose(8) == 7
